@@ -4,7 +4,6 @@ from .brokergen import *
 
 HARNESS = "broker"
 CONST_GROUPS = ["security", "message", "cipher", "license"]
-READY = False
 RULE = ("one case = one broker session: keyban requests (ban / unban, by a master key, by a non-master key, for a key of a foreign "
         "contract) with a use of the key (subscribe / publish) between every pair of toggles, rapid toggling, restarts of the "
         "broker service on the same state directory after any prefix, and a second broker that merges the first one's "
